@@ -12,7 +12,7 @@ For every property:
 import re
 
 from . import v2gen, buildgen, v1gen
-from .lib import Rng, expr, expr_bytes, expr_len, hx, SIG, special_ip6, special_ip4
+from .lib import Rng, expr, expr_bytes, expr_len, hx, SIG, special_ip6, special_ip4, class_pairs, ip4_classes, ip6_classes
 
 FLAGS = re.compile(r" i([01])c([01])$")
 
@@ -957,6 +957,11 @@ def addr_values(tier, rng, k, n):
     """address values for C08: all 256 zero-masks, mapped, all-ones / all-zero, boundary octets and ports; source != destination"""
     rng = rng.fork("addr%d" % k)
     count = (6000 if tier == "quick" else 150000) // n
+    crng = Rng(0xC1A55).fork("fmtpairs")
+    for fam in (6, 4):
+        for a, b in class_pairs(crng, fam, k, n):
+            if a != b:
+                yield ("fmt-v%d" % fam, "%d,%s,%s,%d,%d" % (fam, hx(a), hx(b), 1 + crng.below(65535), crng.below(65536)), {})
     if k == 0:
         yield ("fmt-unknown", "U", {})
         for o in (bytes(4), bytes([255] * 4)):
@@ -1047,6 +1052,30 @@ def ctor_cases(tier, rng, k, n):
         while q == p:
             q = rng.below(65536)
         return p, q
+    # deterministic part: every ordered pair of address classes through the component constructors and through
+    # From<(SocketAddr, SocketAddr)> in all four family combinations
+    crng = Rng(0xC1A55).fork("ctorpairs")
+    for fam in (6, 4):
+        for a, b in class_pairs(crng, fam, k, n):
+            if a == b:
+                continue
+            sp, dp = 1 + crng.below(30000), 30001 + crng.below(30000)
+            yield ("ctor-ip%d" % fam, ("ip%dnew" % fam, "%s,%s,%d,%d" % (hx(a), hx(b), sp, dp)), {})
+            if fam == 4:
+                yield ("ctor-pair", ("pair", "4,%s,%d,4,%s,%d" % (hx(a), sp, hx(b), dp)), {"fam": (4, 4)})
+            else:
+                yield ("ctor-pair", ("pair", "6,%s,%d,%d,%d,6,%s,%d,%d,%d" % (hx(a), sp, crng.below(1 << 32), crng.below(3),
+                                                                            hx(b), dp, crng.below(1 << 32), crng.below(3))), {"fam": (6, 6)})
+    idx = 0
+    for a in ip4_classes(crng):
+        for b in ip6_classes(crng):
+            idx += 1
+            if idx % n != k:
+                continue
+            sp, dp = 1 + crng.below(30000), 30001 + crng.below(30000)
+            six = "6,%s,%%d,%d,%d" % (hx(b), crng.below(1 << 32), crng.below(3))
+            yield ("ctor-pair", ("pair", "4,%s,%d,%s" % (hx(a), sp, six % dp)), {"fam": (4, 6)})
+            yield ("ctor-pair", ("pair", "%s,4,%s,%d" % (six % sp, hx(a), dp)), {"fam": (6, 4)})
     for _ in range(count):
         pick = rng.below(8)
         sp, dp = ports()
